@@ -7,7 +7,13 @@ Depending on the service_type_ident different types of body classes are instanti
 
 from __future__ import annotations
 
-from xknx.exceptions import CouldNotParseKNXIP, IncompleteKNXIPFrame
+import struct
+
+from xknx.exceptions import (
+    ConversionError,
+    CouldNotParseKNXIP,
+    IncompleteKNXIPFrame,
+)
 
 from .body import KNXIPBody
 from .connect_request import ConnectRequest
@@ -146,7 +152,15 @@ class KNXIPFrame:
             raise CouldNotParseKNXIP(
                 f"KNXIPServiceType not implemented: {header.service_type_ident.name}"
             )
-        body.from_knx(raw_body)
+        try:
+            body.from_knx(raw_body)
+        except (ConversionError, IndexError, ValueError, struct.error) as err:
+            # raised deep inside the body parsers (indexing a truncated body,
+            # enum lookups, `struct.unpack`, SRP validation) - a malformed body
+            # is a parse error
+            raise CouldNotParseKNXIP(
+                f"Error parsing {header.service_type_ident.name} body: {err!r}"
+            ) from err
         return KNXIPFrame(header=header, body=body), data[header.total_length :]
 
     def to_knx(self) -> bytes:
